@@ -201,6 +201,14 @@ def inline_base_entry_points(ctx, prog):
             if f is None:
                 continue
             methods = {g.name for c_ in prog.mro(ci) for g in c_.methods.values()} | {g.name for c_ in prog.subclasses_of(ci) for g in c_.methods.values()}
+            # a private method defined once in the whole package and not one of the framework's hooks is a helper, not an override point
+            n_defs = {}
+            for c_ in prog.classes.values():
+                for g in c_.methods.values():
+                    n_defs[g.name] = n_defs.get(g.name, 0) + 1
+            hooks = {'_compute', 'compute', '_compute_metric', '_update', 'update', '_initialize', '_accumulate', '_initialize_accumulators', '_check', '_define_lut_func',
+                     '_init_partitions', '_memory_usage', '_memory_usage_coefficient', '_distinguisher_str'}
+            methods = {n_ for n_ in methods if n_defs.get(n_, 0) != 1 or n_ in hooks or not n_.startswith('_') or n_.startswith('__')}
             h = _inl.inline_in_place(prog, f, skip=methods)
             if h:
                 ctx.note(f'{f.key}: module-level helpers inlined before analysis: {h}')
